@@ -1286,7 +1286,9 @@ fn sgr_face(data: &[u8]) -> FaceModify {
             }
             // bold
             Some(1) => face.bold = Some(true),
-            Some(21) => face.bold = Some(false),
+            // 22 is normal intensity (ECMA-48), 21 is double underline for xterm/kitty
+            // but bold off for some terminals, it is still accepted on input
+            Some(21 | 22) => face.bold = Some(false),
             // italic
             Some(3) => face.italic = Some(true),
             Some(23) => face.italic = Some(false),
